@@ -194,15 +194,18 @@ func C13() *engine.Check {
 	long := &engine.Sub{
 		Name:   "long-patterns-and-strings",
 		Repeat: true,
-		Rule:   "patterns prefix + '*' + u^k + v (u in {a, ab, abc, 0}, k in {8, 16, 17, 20, 33, 40}, v in {'', b, 7}, prefix in {'', x}) - a wildcard followed by a long, self-overlapping literal - against strings u^m + v for m around k, 2k and 25k, with and without a near-miss run before the real match, and against the same strings with the last character changed; reference = dynamic programming; constructor-built and FromIPLD-built policies; non-trivial = all",
+		Rule:   "patterns prefix + '*' + u^k + v (u in {a, ab, abc, 0}, k in {8, 16, 17, 20, 33, 40, 64, 65, 128, 300}, v in {'', b, 7}, prefix in {'', x}) - a wildcard followed by a long, self-overlapping literal - against strings u^m + v for m around k, 2k and 25k (100k for k >= 64: the work of a backtracking matcher is then several hundred times the size of its input), with and without a near-miss run before the real match, and against the same strings with the last character changed; reference = dynamic programming; constructor-built and FromIPLD-built policies; non-trivial = all",
 		Bound: func(string) string {
-			return "2 x 4 x 6 x 3 patterns x 14 strings of up to ~3000 bytes x 2 constructors"
+			return "2 x 4 x 10 x 3 patterns x up to 69 strings of up to ~90000 bytes x 2 constructors"
 		},
 		Gen: func(tier string, emit func(any) bool) {
 			for _, pre := range []string{"", "x"} {
 				for _, u := range []string{"a", "ab", "abc", "0"} {
-					for _, k := range []int{8, 16, 17, 20, 33, 40} {
+					for _, k := range []int{8, 16, 17, 20, 33, 40, 64, 65, 128, 300} {
 						for _, v := range []string{"", "b", "7"} {
+							if k >= 64 && (tier != "thorough" || k == 300) && (pre != "" || len(u) > 2 || v != "b" || (k == 300 && tier != "thorough")) {
+								continue // the long runs are costly for the reference: a few representatives
+							}
 							if !emit(&c13LongCase{Pre: pre, U: u, K: k, V: v}) {
 								return
 							}
@@ -229,7 +232,11 @@ func C13() *engine.Check {
 			}
 			rep := strings.Repeat
 			var strs []string
-			for _, m := range []int{cs.K - 1, cs.K, cs.K + 1, 2 * cs.K, 2*cs.K + 1, 25 * cs.K} {
+			ms := []int{cs.K - 1, cs.K, cs.K + 1, 2 * cs.K, 2*cs.K + 1, 25 * cs.K}
+			if cs.K >= 64 {
+				ms = append(ms, 100*cs.K)
+			}
+			for _, m := range ms {
 				body := rep(cs.U, m) + cs.V
 				strs = append(strs, cs.Pre+body, cs.Pre+"zz"+body, cs.Pre+rep(cs.U, cs.K-1)+"#"+body)
 			}
@@ -318,9 +325,9 @@ func C13() *engine.Check {
 	return &engine.Check{
 		Property: "C13",
 		Level:    "model_checking",
-		Subs:     []*engine.Sub{main, long, many, nonString, c13ConcSub(), concRaceSub("C13")},
+		Subs:     []*engine.Sub{main, c13BytesSub(), long, many, nonString, c13ConcSub(), concRaceSub("C13")},
 		Assumptions: []string{
-			`alphabet {a,b,*,\}: two ordinary characters plus the two special ones; bytes outside ASCII are not special to the matcher`,
+			`alphabet {a,b,*,\}: two ordinary characters plus the two special ones; bytes outside ASCII are not special to the matcher (sub-check like-on-bytes-outside-ascii runs a second alphabet of such bytes)`,
 			"reference: dynamic programming over the tokenized pattern (refmodel.GlobMatch), independent of the backtracking matcher",
 		},
 	}
